@@ -179,7 +179,7 @@ def gen_otfad_case(rng, big):
             end = e
         else:
             end = e - rng.randrange(2, 1024)
-        fl = rng.choice([3, 3, 3, 3, 7, 7, 1, 2, 0, 5])
+        fl = rng.choice([3, 3, 3, 3, 3, 3, 7, 7, 1, 2, 0, 5])
         blobs.append({"s": s, "e": end, "key": hx(rng.randbytes(16)), "ctr": hx(rng.randbytes(8)), "fl": fl,
                       "zf": hx(rng.randbytes(4)), "crc": "" if rng.random() < 0.85 else hx(rng.randbytes(4))})
     length = pick_len(rng, big)
@@ -296,6 +296,8 @@ def gen_iee_case(rng, big, claimed_only=True):
         b["k2"] = hx(key2)
         blobs.append(b)
     length = pick_len(rng, big)
+    if rng.random() < 0.35:
+        length = rng.randrange(4097, 30000)      # several pages, so that images cross region boundaries
     base = pick_base(rng, ranges, length, 4096, 4096)
     split = min(length, 4096 * rng.randrange(0, length // 4096 + 2))
     return {"k": "iee", "img": [length, rng.getrandbits(32)], "base": base, "blobs": blobs, "k1": hx(rng.randbytes(32)),
@@ -777,12 +779,12 @@ def run(ck):
                   "ADE-only, none), images of length {0,1,15,16,17,1023,1024,1025,4095,4096,4097, random <= 64 KiB}, 16-byte aligned "
                   "bases (1 KiB aligned or not) inside / straddling / outside the windows, byte swap, KEK, scramble mask/align, "
                   "reversed scramble key, key-blob byte-swap count; non-trivial = non-empty image")
-    run_cases(s, drv, [gen_otfad_case(rng, i % 9 == 0) for i in range(ck.budget(420, 12000))])
+    run_cases(s, drv, [gen_otfad_case(rng, i % 9 == 0) for i in range(ck.budget(560, 12000))])
 
     s = ck.stream("iee", "1..4 disjoint 4 KiB-aligned regions in AES-XTS 256/512, AES-CTR-with-address 128/256 (incl. counter words next "
                   "to the 32-bit wrap), bypass; 4 KiB-aligned data addresses; same image lengths; IBKEKs and key-blob addresses; "
                   "non-trivial = non-empty image")
-    run_cases(s, drv, [gen_iee_case(rng, i % 9 == 0) for i in range(ck.budget(300, 9000))])
+    run_cases(s, drv, [gen_iee_case(rng, i % 9 == 0) for i in range(ck.budget(380, 9000))])
 
     s = ck.stream("iee_other_ctr", "regions in AesCTRWOAddress / AesCTRkeystream (mixed with claimed modes): no crash, lengths, untouched "
                   "outside, model correspondence; no hardware comparison (not claimed by the property)")
@@ -790,7 +792,7 @@ def run(ck):
 
     s = ck.stream("bee", "one or two engines with 1..4 FAC regions each (disjoint, 1 KiB aligned), 16-byte aligned bases (1 KiB aligned "
                   "or not), same image lengths; non-trivial = non-empty image")
-    run_cases(s, drv, [gen_bee_case(rng, i % 9 == 0) for i in range(ck.budget(300, 9000))])
+    run_cases(s, drv, [gen_bee_case(rng, i % 9 == 0) for i in range(ck.budget(380, 9000))])
 
     s = ck.stream("direct_and_malformed", "KeyBlob.encrypt_image / IeeKeyBlob.encrypt_image / encrypt_block called directly (counter_value "
                   "None/0/address, unaligned base, wrong key / counter / KEK sizes, duplicated XTS keys, scramble values out of range, "
